@@ -5,6 +5,7 @@ import ClipVerif.Model.Trim
 import ClipVerif.Model.Lists
 import ClipVerif.Model.Out
 import ClipVerif.Model.AreaOP
+import ClipVerif.Model.OffsetGeom
 import ClipVerif.Proofs.AreaOP
 /-
 C13 — results do not depend on coordinate magnitude within the advertised range.  Proved about the
@@ -116,5 +117,35 @@ theorem areaOP_operands_translate (prev cur v : Point64) :
 
 example : Model.areaOPExact2 [⟨0, 0⟩, ⟨4, 0⟩, ⟨4, 3⟩] = Spec.area2 [⟨0, 0⟩, ⟨4, 0⟩, ⟨4, 3⟩] ∧
     Model.areaOPExact2 [⟨0, 0⟩, ⟨4, 0⟩, ⟨4, 3⟩] ≠ 0 := by decide
+
+/-! ### Edge normals of the offsetter (`Model.getUnitNormal`, `Model.buildNormals`, tied bit for bit by
+`models-corr offraw`): computed from coordinate differences taken in int64 before the conversion, hence
+identical — bit for bit — for a translated path, for every 64-bit translation vector. -/
+
+theorem getUnitNormal_translate (p1 p2 v : Point64) :
+    Model.getUnitNormal (shift p1 v) (shift p2 v) = Model.getUnitNormal p1 p2 := by
+  simp only [Model.getUnitNormal, shift, Proofs.C13.sub_shift]
+
+theorem buildNormals_translate (path : Array Point64) (v : Point64) :
+    Model.buildNormals (path.map fun p => shift p v) = Model.buildNormals path := by
+  have hget : ∀ i, i < path.size → (path.map fun p => shift p v)[i]! = shift path[i]! v := by
+    intro i hi
+    rw [getElem!_pos _ i (by simpa using hi), getElem!_pos path i hi]
+    simp
+  unfold Model.buildNormals
+  simp only [Array.size_map]
+  split
+  · rfl
+  · rename_i hne
+    have hpos : 0 < path.size := by
+      apply Nat.pos_of_ne_zero
+      intro e
+      exact hne (by simp [e])
+    rw [hget (path.size - 1) (by omega), hget 0 hpos, getUnitNormal_translate]
+    congr 2
+    apply List.map_congr_left
+    intro i hi
+    have hi' : i < path.size - 1 := by simpa using hi
+    rw [hget i (by omega), hget (i + 1) (by omega), getUnitNormal_translate]
 
 end C13
